@@ -38,22 +38,22 @@ type report struct {
 }
 
 type ctx struct {
-	prop   string
-	tier   string
-	seed   int64
-	out    string
-	rng    *rand.Rand
-	rep    *report
-	seen   map[string]bool
-	cases  []string // Coq terms
-	descs  []string
-	shard  int
-	header string // Coq header for case files
-	perFile int
-	widen   bool
-	replay  string
-	caseType     string   // Coq type of a case (default "case")
-	mismatchExpr string   // Coq expression computing the mismatch index list (default "mismatches cases")
+	prop         string
+	tier         string
+	seed         int64
+	out          string
+	rng          *rand.Rand
+	rep          *report
+	seen         map[string]bool
+	cases        []string // Coq terms
+	descs        []string
+	shard        int
+	header       string // Coq header for case files
+	perFile      int
+	widen        bool
+	replay       string
+	caseType     string            // Coq type of a case (default "case")
+	mismatchExpr string            // Coq expression computing the mismatch index list (default "mismatches cases")
 	defs         map[string]string // Coq term -> name of a shared definition
 	defText      map[string]string // name -> "Definition name : ty := term."
 	fileDefs     []string          // names used by the cases of the current file, in first-use order
